@@ -162,6 +162,61 @@ async def exotic(res):
             res.violation(f"{s!r}: indicator {r.requirement_indicator.value}, expected {exp}", {"kind": "exotic", "expr": s})
 
 
+def long_expressions(res, work, n):
+    """random AHB expressions with 4-9 parts: the state of every part is obtained by evaluating its condition ON ITS OWN with the real code; which part decides is
+    decided by TLC (AhbEvalTrace.tla)"""
+    import ahb
+    from common import validate_traces
+    from ahbicht.expressions.ahb_expression_evaluation import evaluate_ahb_expression_tree
+    from ahbicht.expressions.expression_resolver import parse_expression_including_unresolved_subexpressions
+    from ahbicht.expressions.requirement_constraint_expression_evaluation import requirement_constraint_evaluation
+    rng = random.Random(seed() * 409 + 9)
+    hints = {500 + i: ahb.hint_text(500 + i) for i in range(1, 30)}
+    traces = []
+
+    async def go():
+        for tid in range(1, n + 1):
+            k = rng.randint(4, 9)
+            if rng.random() < 0.1:
+                parts = [{"ind": rng.choice(["X", "O", "U"]), "bare": rng.random() < 0.2, "st": rng.choice("FUKN")}]
+            else:
+                bias = rng.choice(["U", "U", "K", None])          # mostly unfulfilled parts in front, so that late parts decide
+                parts = [{"ind": rng.choice(["MUSS", "SOLL", "KANN"]), "bare": False, "st": (bias if bias and rng.random() < 0.7 else rng.choice("FUKN"))} for _ in range(k)]
+                if rng.random() < 0.3:
+                    parts[-1]["bare"] = True
+            expr, conds, rc, fc = build_expression(parts, rng)
+            expr = expr.rstrip() if parts[-1]["bare"] else expr
+            logged = []
+            for p, c in zip(parts, conds):
+                if c is None:
+                    logged.append({"ind": p["ind"], "bare": True, "st": "N"})
+                    continue
+                ahb.set_cer_values(rc=rc, fc=fc, hints=hints)
+                o = await requirement_constraint_evaluation(c)
+                st = {(True, True): "F", (True, False): "N", (False, True): "U", (None, None): "K"}[(o.requirement_constraints_fulfilled, o.requirement_is_conditional)]
+                logged.append({"ind": p["ind"], "bare": False, "st": st})
+            ahb.set_cer_values(rc=rc, fc=fc, hints=hints)
+            try:
+                r = await evaluate_ahb_expression_tree(await parse_expression_including_unresolved_subexpressions(expr))
+            except BaseException as e:  # pylint:disable=broad-except
+                res.violation(f"evaluating {expr!r} with {rc} raised {type(e).__name__}: {e}", {"kind": "long", "expr": expr, "rc": rc, "fc": fc})
+                continue
+            traces.append({"id": tid, "parts": logged, "expr": expr, "rc": rc,
+                           "result": {"ind": str(r.requirement_indicator.value), "fulfilled": B2S[r.requirement_constraint_evaluation_result.requirement_constraints_fulfilled]}})
+
+    asyncio.run(go())
+    slim = [{k: v for k, v in t.items() if k not in ("expr", "rc")} for t in traces]
+    t2, acc, diag = validate_traces("AhbEvalTrace", "AhbEvalTrace.cfg", slim, work, tag="ahbevaltrace")
+    res.add_tlc(f"AhbEvalTrace: real results of {len(traces)} random AHB expressions with 4-9 parts decided by TLC (first fulfilled part, else the last)", t2)
+    res.count("evaluations", len(traces))
+    for t in traces:
+        res.distinct(("long", t["expr"], tuple(sorted(t["rc"].items()))))
+        if t["id"] not in acc:
+            at, exp = diag.get(t["id"], (0, ()))
+            res.violation(f"{t['expr']!r} with {t['rc']}: reported {t['result']}; the parts evaluate to {[p['st'] if not p['bare'] else 'bare' for p in t['parts']]}, "
+                          f"so the deciding part gives {exp}", {"kind": "long", "expr": t["expr"], "rc": t["rc"]})
+
+
 def _worker(args):
     which, dump, shard, nshards, sd = args
     import ahb
@@ -213,6 +268,7 @@ def run():
     import ahb
     ahb.configure()
     asyncio.run(exotic(res))
+    long_expressions(res, work, 1500 if thorough else 200)
     res.coverage["traces_validated_against_impl"] = res.coverage.get("parses", 0) + res.coverage.get("evaluations", 0)
     res.coverage["evaluations"] = res.coverage["traces_validated_against_impl"]
     res.coverage["exhaustive"] = True
